@@ -124,7 +124,12 @@ class DAGRunConcurrentManager(DAGRunManagerLike):
         """
 
         for coro_task in coro_tasks:
-            if coro_task.done() and isinstance(coro_task.exception(), BaseException):
+            # Task.exception() raises CancelledError for a cancelled task: tasks that the manager itself
+            # has cancelled (e.g. siblings of a failed OneOf branch) are not errors of the run.
+            if not coro_task.done() or coro_task.cancelled():
+                continue
+
+            if isinstance(coro_task.exception(), BaseException):
                 return coro_task.exception()
 
         return None
